@@ -503,7 +503,7 @@ class IntegrityChecker(object):
             spe = self.ds.config["fluorescence"]["samples per event"]
             if "trace" in self.ds:
                 for key in self.ds["trace"].keys():
-                    spek = self.ds["trace"][key][0].size
+                    spek = self.ds["trace"][key].shape[1]
                     if spek != spe:
                         cues.append(ICue(
                             msg="Metadata: wrong number of samples per "
@@ -520,7 +520,7 @@ class IntegrityChecker(object):
         neg_feats = []
         for fl in ['fl1_max', 'fl2_max', 'fl3_max']:
             if fl in self.ds:
-                if min(self.ds[fl]) <= 0.1:
+                if len(self.ds[fl]) and min(self.ds[fl]) <= 0.1:
                     neg_feats.append(fl)
         if neg_feats:
             cues.append(ICue(
@@ -535,7 +535,7 @@ class IntegrityChecker(object):
         neg_feats = []
         for fl in ['fl1_max_ctc', 'fl2_max_ctc', 'fl3_max_ctc']:
             if fl in self.ds:
-                if min(self.ds[fl]) <= 0.1:
+                if len(self.ds[fl]) and min(self.ds[fl]) <= 0.1:
                     neg_feats.append(fl)
         if neg_feats:
             cues.append(ICue(
